@@ -33,7 +33,7 @@ func (v *Vue) evalAttributes(ctx VueContext, n *html.Node) (map[string]any, erro
 		// The internal v-html / v-text carriers hold evaluated content (data),
 		// which must never be interpolated as template code
 		if key == "data-v-html-content" || key == "data-v-text-content" {
-			newAttrs = append(newAttrs, html.Attribute{Key: key, Val: strings.TrimSpace(val)})
+			newAttrs = append(newAttrs, html.Attribute{Key: key, Val: helpers.TrimHTMLSpace(val)})
 			continue
 		}
 
